@@ -450,3 +450,30 @@ Proof.
   repeat split; auto.
   intros r Hr. rewrite Hr in R. cbn in R. congruence.
 Qed.
+
+(* C03 (clean abort, "Run() returns THAT error"): when a readiness wait ends with an error taken from the error
+   queue - the select took errorChan (LGateErr), or the runnable reported ready / the context was cancelled and a
+   failure was already queued (LGateDecide, LGateCtx) - the error taken is the HEAD of the queue, it was really
+   returned by some runnable's Run (not a cancellation), Run() has fixed exactly it as its result, no further
+   runnable is ever started, and it is what Run() returns on every continuation. *)
+Definition gate_fail_label (j : nat) (l : label) : Prop := l = LGateErr j \/ l = LGateDecide j \/ l = LGateCtx j.
+
+Theorem sup_c03_abort_returns_that_error c s j l e q s1 ls s2 :
+  reachable_sup c s -> gate_fail_label j l -> errq s = e :: q -> step c s l = Some s1 ->
+  run (step c) s1 ls = Some s2 ->
+  main s1 = MExit (ResErr e) /\ errq s1 = q /\ In e (real_error_ids (rev (hist s))) /\
+  launched s2 = launched s /\ main_res (main s2) = Some (ResErr e) /\
+  (forall r, main s2 = MReturned r -> r = ResErr e).
+Proof.
+  intros Hre Hl Hq H1 H2.
+  assert (Hs1 : s1 = set_main (set_errq s q) (MExit (ResErr e))).
+  { unfold step in H1. destruct Hl as [->|[->| ->]]; cbn [step0] in H1; rewrite ?Hq in H1;
+      step_cases H1; rewrite ?Hq in H1; injection H1 as <-; reflexivity. }
+  subst s1.
+  assert (P : past_startup (set_main (set_errq s q) (MExit (ResErr e)))) by exact Logic.I.
+  assert (M : main_res (main (set_main (set_errq s q) (MExit (ResErr e)))) = Some (ResErr e)) by reflexivity.
+  pose proof (sup_c03_abort c _ ls s2 P H2) as L. pose proof (main_res_run c ls _ _ _ M H2) as R.
+  split; [reflexivity|]. split; [reflexivity|]. split.
+  - apply real_ids_rev. apply (ie_errq _ _ (InvErr_reachable _ _ Hre)). rewrite Hq. now left.
+  - split; [exact L|]. split; [exact R|]. intros r Hr. rewrite Hr in R. cbn in R. congruence.
+Qed.
